@@ -230,8 +230,9 @@ def enum_engine(seed):
         def __getattr__(self, n):
             return lambda *a, **k: None
     try:
-        for plugins in (True, False):
-            for extra_first in (False, True):
+        for plugins, extra_first in ((True, False), (True, True), (False, False), (False, True), (False, None), (True, None)):
+            if True:
+                # (extra_first None: the engine is built without an observer, as its constructors allow; it then reports to an output of its own)
                 cases += 1
                 root, tmp = os.path.join(scratch, f"r{cases}"), os.path.join(scratch, f"t{cases}")
                 os.makedirs(root)
@@ -241,9 +242,9 @@ def enum_engine(seed):
                         fs.fsFile("/usr/bin/b", mode=0o666, uid=0, gid=4343, mtime=1, data=data_source(b"x"), strict=False),
                         fs.fsFile("/usr/bin/c", mode=0o4757, uid=4242, gid=4343, mtime=1, data=data_source(b"x"), strict=False)]
                 pkg = types.SimpleNamespace(contents=contentsSet(ents), cpvstr="cat/pkg-1")
-                model = {"default_plugins": plugins, "configured_triggers_registered_first": extra_first}
+                model = {"default_plugins": plugins, "observer": "none given" if extra_first is None else "given"}
                 try:
-                    eng = E.MergeEngine.install(tmp, pkg, offset=root, observer=_Quiet(), disable_plugins=not plugins)
+                    eng = E.MergeEngine.install(tmp, pkg, offset=root, observer=None if extra_first is None else _Quiet(), disable_plugins=not plugins)
                     own = [T.fix_uid_perms(uid=4242, replacement=0), T.fix_gid_perms(gid=4343, replacement=0), T.detect_world_writable(fix_perms=True), T.fix_set_bits()]
                     for trg in own:
                         trg.register(eng)
